@@ -688,6 +688,8 @@ def make_sweep(seed, tier, k, fam, rng, prop):
     cfg.update(n_choices=[2, 3], share_eos=0.0, share_ic=0.0, plain_container=1.0, refill=0.0, bb_setters=0.0,
                special_pts=0.0, nonfinite_pts=0.0, odd_time=0.0, near_time=0.0)
     g = Gen(rng, [fam], cfg)
+    if fam.name == "nohblackbox":
+        return make_bb_sweep(seed, tier, k, fam, rng, prop, g)
     qual = _qual_for(fam, 0)
     p, d = sweep_parameter(fam)
     n = 0 if p is None else (140 if fam.cost == "cheap" else 20)
@@ -722,6 +724,36 @@ def make_sweep(seed, tier, k, fam, rng, prop):
     append_canaries(g, rng)
     return {"seed": seed, "tier": tier, "index": k, "prop": prop, "kind": "cornerstone",
             "config": {"family": fam.name, "variant": "sweep", "parameter": p, "sets": n},
+            "families": [fam.name], "run": {}, "ops": g.ops, "intents": [], "faults": []}
+
+
+def make_bb_sweep(seed, tier, k, fam, rng, prop, g):
+    """Black-box Noh: a sweep over short-lived solver and EOS objects (for gamma in gammas: Solver(ideal_gas_eos(gamma))(r, t)),
+    each released before the next is built: whatever a solver keyed on a dead EOS object meets the next EOS at that address."""
+    quals = ["exactpack.solvers." + c for c in fam.classes]
+    pts = fam.pool[0].pts.gen(2, 0)
+    thex = fhex(fam.pool[0].times[0])
+    for i in range(48):
+        gam = 1.2 + 0.037 * i
+        geo = (i % 3) + 1
+        qual = quals[geo]       # Planar / Cylindrical / Spherical wrapper
+        oid = "S%d" % (len(g.objs) + 1)
+        g.neos += 1
+        op = {"op": "new", "c": 0, "obj": oid, "cls": qual, "kw": enc({}), "fam": fam.name, "pi": 0,
+              "eos": {"cls": "ideal_gas_eos", "args": enc([gam]), "id": "E%d" % g.neos}}
+        g.ops.append(op)
+        st = ObjState(oid, qual, fam, 0, op, 0)
+        g.objs.append(st)
+        c = {"op": "cfg", "c": 0, "obj": oid, "m": "set_new_solver_initial_guess", "a": enc([list(T._GUESS[geo])])}
+        g.ops.append(c)
+        st.cfg.append(c)
+        g.call_op(0, st, pts, thex, "N", cont="nd")
+        if i % 5 != 4:
+            st.alive = False
+            g.ops.append({"op": "drop", "c": 0, "obj": oid})
+    append_canaries(g, rng)
+    return {"seed": seed, "tier": tier, "index": k, "prop": prop, "kind": "cornerstone",
+            "config": {"family": fam.name, "variant": "sweep", "parameter": "eos gamma", "sets": 48},
             "families": [fam.name], "run": {}, "ops": g.ops, "intents": [], "faults": []}
 
 
